@@ -179,6 +179,10 @@ pub fn posthoc(pre: &World, post: &World, res: &mut EvalOut) -> PostHoc {
     // ---------------- C09 (records): never started because of upstream failure / abort
     for (j, d) in res.disp.iter() {
         if (*d == Disp::UpstreamFailed || *d == Disp::Aborted) && !res.executed.contains(j) {
+            if ids.get(j).map(|s| useless.contains(s)).unwrap_or(false) {
+                // never needed: not "never started because an upstream failed or the run was aborted"
+                continue;
+            }
             let what = if *d == Disp::Aborted { "aborted" } else { "upstream-failed" };
             if h_in.get(j) != h_out.get(j) {
                 push(&mut v, "C09", format!("own-record-of-{}-job-changed", what), format!("{}: {:?} -> {:?}", j, h_in.get(j), h_out.get(j)));
@@ -337,7 +341,7 @@ pub fn posthoc(pre: &World, post: &World, res: &mut EvalOut) -> PostHoc {
             if h_out.contains_key(j) || h_out.contains_key(&format!("{}!!!", j)) {
                 push(&mut v, "C16", "recorded-despite-error", j.clone());
             }
-            if !res.final_states.get(j).map(|s| s.contains("FinishedFailure")).unwrap_or(false) {
+            if !res.final_states.get(j).map(|s| crate::driver::is_own_failure(s)).unwrap_or(false) {
                 push(&mut v, "C16", "not-treated-as-failed", format!("{} {:?}", j, res.final_states.get(j)));
             }
         }
@@ -358,7 +362,7 @@ pub fn posthoc(pre: &World, post: &World, res: &mut EvalOut) -> PostHoc {
             for b in blocked.iter() {
                 let id = post.id(*b);
                 let stt = res.final_states.get(&id).cloned().unwrap_or_default();
-                if !res.upstream_failed.contains(&id) && !(useless.contains(b) && stt.contains("FinishedSkipped")) {
+                if !res.upstream_failed.contains(&id) && !useless.contains(b) {
                     push(&mut v, "C16", "dependant-of-failed-ephemeral-not-upstream-failed", format!("{} ended {}", id, stt));
                 }
             }
@@ -383,7 +387,7 @@ pub fn posthoc(pre: &World, post: &World, res: &mut EvalOut) -> PostHoc {
             for b in blocked.iter() {
                 let id = post.id(*b);
                 let stt = res.final_states.get(&id).cloned().unwrap_or_default();
-                if !res.upstream_failed.contains(&id) && !(useless.contains(b) && stt.contains("FinishedSkipped")) {
+                if !res.upstream_failed.contains(&id) && !useless.contains(b) {
                     push(&mut v, "C07", "blocked-job-not-reported-upstream-failed", format!("{} ended {}", id, stt));
                 }
             }
@@ -430,8 +434,11 @@ pub fn posthoc(pre: &World, post: &World, res: &mut EvalOut) -> PostHoc {
                         }
                     } else if sup(b) {
                         // may
-                    } else if sup(a) && rerecorded(b) {
-                        // may
+                    } else if pb && rerecorded(b) {
+                        // may: `a!!!b` is b's account of what it last consumed from `a`; `a` has left the
+                        // graph (or changed its name) and b has been recorded anew without it - the
+                        // statement's "so that a job which is removed and later re-added is judged against
+                        // what it last consumed" is about the records of the removed job itself
                     } else if h_out.get(k) != Some(val) {
                         let what = if sup(a) { "dependency-record-on-superseded-upstream-lost-before-consumer-rerecorded" } else { "dependency-record-with-absent-job-lost" };
                         push(&mut v, "C18", what, format!("{} (upstream present={} downstream present={}) -> {:?}", k, pa, pb, h_out.get(k)));
